@@ -364,6 +364,61 @@ def correspondence_R(ctx):
     return dis
 
 
+def partial_first_setup(c):
+    """class rocc_partial_first_setup: some setup WITHOUT input state writes only one half of an instruction
+    (the lowering materialises 0 for the other half, whatever the register currently holds)"""
+    inv = {v: k for k, v in c["names"].fields.items()}
+    found = False
+
+    def walk(b):
+        nonlocal found
+        for s in b:
+            if s["op"] == "setup" and s["in"] is None:
+                names = {inv[f] for f, _ in s["fields"]}
+                for n in names:
+                    other = n[:-4] + (".rs2" if n.endswith(".rs1") else ".rs1")
+                    if other not in names:
+                        found = True
+            for k in ("body", "then", "else"):
+                if k in s:
+                    walk(s[k])
+    walk(c["prog"]["body"])
+    return found
+
+
+WITNESS = '''builtin.module {
+  "accfg.accelerator"() <{name = @gemmini, fields = {k_AB.rs1 = 10 : i64, k_AB.rs2 = 10 : i64}, launch_fields = {k_LOOP_WS.rs1 = 8 : i64, k_LOOP_WS.rs2 = 8 : i64}, barrier = 2989 : i32}> : () -> ()
+  func.func @f(%a : i64, %b : i64, %c : i64, %cnd : i1) {
+    scf.if %cnd {
+      %s1 = accfg.setup "gemmini" to ("k_AB.rs1" = %a : i64, "k_AB.rs2" = %b : i64) : !accfg.state<"gemmini">
+      %t1 = "accfg.launch"(%a, %a, %s1) <{param_names = ["k_LOOP_WS.rs1", "k_LOOP_WS.rs2"], accelerator = "gemmini"}> : (i64, i64, !accfg.state<"gemmini">) -> !accfg.token<"gemmini">
+      "accfg.await"(%t1) : (!accfg.token<"gemmini">) -> ()
+      scf.yield
+    }
+    %s2 = accfg.setup "gemmini" to ("k_AB.rs2" = %c : i64) : !accfg.state<"gemmini">
+    %t2 = "accfg.launch"(%a, %a, %s2) <{param_names = ["k_LOOP_WS.rs1", "k_LOOP_WS.rs2"], accelerator = "gemmini"}> : (i64, i64, !accfg.state<"gemmini">) -> !accfg.token<"gemmini">
+    "accfg.await"(%t2) : (!accfg.token<"gemmini">) -> ()
+    func.return
+  }
+}'''
+
+
+def replay_known(ctx, entry):
+    if entry.get("class") != "rocc_partial_first_setup":
+        return False
+    c = rocc_case(accir.parse(entry.get("witness", {}).get("mlir", WITNESS)), [])
+    if "after" not in c or not partial_first_setup(c):
+        return False
+    rm = coq_rinfo(c["decl"], c["names"])
+    p = accir.to_coq(c["prog"])
+    rb = rblock_to_coq(c["after"])
+    args = entry.get("witness", {}).get("args", [100, 200, 300, 1])
+    t = PRELUDE + (f"Eval vm_compute in (rtrace_match (rrun {rm} (co_orc (test_coracle 1)) {p} {accir.zlist(args)}) "
+                   f"(crun (test_coracle 1) (p_params {p}) {rb} {accir.zlist(args)})).\n")
+    ok, out = vlib.coq_eval("c04rk", t)
+    return ok and "= false" in out
+
+
 def search_R(ctx, deep):
     cases, _, l2_bad, _ = _run(ctx)
     fails = []
@@ -376,7 +431,8 @@ def search_R(ctx, deep):
                           "case": B._case_view(c)})
     for (i, j) in l2_bad:
         c = cases[i]
-        fails.append({"part": "R", "what": "rocc_instruction_stream_differs", "kind": c["origin"], "klass": None,
+        fails.append({"part": "R", "what": "rocc_instruction_stream_differs", "kind": c["origin"],
+                      "klass": "rocc_partial_first_setup" if partial_first_setup(c) else None,
                       "detail": {"args": c["inputs"][j], "seed": j + 1}, "case": B._case_view(c)})
     for c in cases:
         ctx.count({"L2": "rocc", "origin": c["origin"]}, "after" in c, "L2R" + c["before_text"], "L2:rocc")
